@@ -27,7 +27,7 @@ ASSUMPTIONS = ["Python json / float repr round-trips floats exactly; mesh format
 FLOORS = {'quick': {'json': 300, 'smesh': 60, 'vmesh': 40, 'txt': 150, 'csv': 80, 'file-layout': 200, 'reimport-eval': 1500,
                     'trims': 40, 'container': 40},
           'thorough': {'json': 3000, 'reimport-eval': 15000}}
-MANDATORY_TAGS = ['curve', 'surface', 'volume', 'rational', 'nonrational', 'container', 'trims', 'fmt:json', 'fmt:smesh', 'fmt:vmesh',
+MANDATORY_TAGS = ['curve', 'surface', 'volume', 'rational', 'nonrational', 'container', 'container:ten-or-more', 'fmt:txt-volume', 'trims', 'fmt:json', 'fmt:smesh', 'fmt:vmesh',
                   'fmt:txt1d', 'fmt:txt2d', 'fmt:csv', 'unnormalized']
 TECHNIQUE = ("runtime monitoring: round-trip oracle on every export/import pair (structural equality within printed precision + "
              "exact reference evaluation of the re-imported shape) and an independent harness-side parser of the written files")
@@ -57,6 +57,11 @@ def gen(rng, tier, shard, nshards):
             pd = rng.choice([1, 2, 3])
             yield {'kind': 'container', 'seed': rng.randrange(1 << 30),
                    'shapes': [G.rand_shape(rng, pd, dim=3, clamped_only=True, maxextra=2, maxdeg=3) for _ in range(rng.randint(1, 4))]}
+        if i % 8 == 5:
+            # ten or more shapes: multi-file formats number their files 1..N
+            pd = rng.choice([2, 2, 3])
+            yield {'kind': 'container', 'seed': rng.randrange(1 << 30),
+                   'shapes': [G.rand_shape(rng, pd, dim=3, clamped_only=True, maxextra=1, maxdeg=2) for _ in range(rng.randint(10, 13))]}
 
 
 def tmpfile(name):
@@ -252,6 +257,30 @@ def check(case, ctx):
         ev = [list(p) for p in o.evalpts]
         ok = len(lines) == len(ev) + 1 and all([float(c) for c in l.split(',')] == ev[k] for k, l in enumerate(lines[1:]))
         ctx.check(ok, 'csv/evalpts-file', 'csv evalpts export does not list the evaluated points in order', what='csv')
+    if pdim == 3:
+        # control-point text format of a volume: the flat list; the surface-only two_dimensional flag must not lose points
+        for two in (False, True):
+            ctx.tag('fmt:txt-volume')
+            fn = tmpfile('xv.txt')
+            try:
+                exchange.export_txt(o, fn, two_dimensional=two)
+            except Exception as e:           # an explicit refusal of the surface-only layout is fine
+                if two and type(e).__name__ in ('GeomdlException', 'ValueError', 'TypeError'):
+                    ctx.ok('txt')
+                    continue
+                raise
+            with open(fn) as f:
+                nlines = len([l for l in f.read().strip().split('\n') if l.strip()])
+            npts_file = nlines if not two else None
+            if two:
+                with open(fn) as f:
+                    npts_file = sum(len(l.split(';')) for l in f.read().strip().split('\n') if l.strip())
+            ctx.check(npts_file == len(hom), 'txt/volume-points-lost', 'export_txt(volume, two_dimensional=%s) wrote %d of %d control points'
+                      % (two, npts_file, len(hom)), what='txt')
+            if not two:
+                got = exchange.import_txt(fn)
+                ctx.check([list(p) for p in got] == [list(p) for p in hom], 'txt/points', 'txt round trip of a volume changed or re-ordered the '
+                          'control points', what='txt')
     # ---- smesh -----------------------------------------------------------------------------------------------------------------
     if pdim == 2:
         ctx.tag('fmt:smesh')
@@ -305,6 +334,8 @@ def check_container(case, ctx):
     pdim = sds[0]['pdim']
     els = [G.build(sd) for sd in sds]
     ctx.tag('container', 'fmt:json')
+    if len(case['shapes']) >= 10:
+        ctx.tag('container:ten-or-more')
     cont = {1: multi.CurveContainer, 2: multi.SurfaceContainer, 3: multi.VolumeContainer}[pdim](*els)
     fn = tmpfile('m.json')
     exchange.export_json(cont, fn)
